@@ -51,14 +51,16 @@ import (
 )
 
 const rule = "program with >= 2 goroutines in which listener registration or signing can overlap a discovery pass: " +
-	"at least one AddListener op that comes after a file creation (a file existing before Initialize, or an earlier create op of the same goroutine) " +
-	"while another goroutine creates files or calls Refresh, or >= 2 goroutines that sign while the metadata format is still 'auto'; distinct by hash of the program"
+	"at least one AddListener op (a single registration or a registration storm) that comes after a file creation (a file existing before Initialize, or an earlier create / bulk op of the same goroutine) " +
+	"while another goroutine creates files (key files one by one or batches of cheap matching files) or calls Refresh, or >= 2 goroutines that sign while the metadata format is still 'auto'; distinct by hash of the program"
 
 const (
 	raceFilter   = "pkg/fswallet"
 	liveness     = 30 * time.Second
 	poolSize     = 64
 	walletSecret = "verif-c17 password"
+	maxBulk      = 4096 // cheap matching files (names only matter for discovery): bulk indices 0..maxBulk-1
+	maxStormRegs = 20000
 )
 
 // note counts a dynamic class label in the evidence (set by TestCheck).
@@ -139,6 +141,27 @@ func keys() []poolKey {
 	return pool
 }
 
+// bulk addresses: the account list depends on file NAMES only, so directories with hundreds of
+// entries are made of empty files named after these (fixed, seedless) addresses.  Their name order is
+// unrelated to their index.
+var (
+	bulkAddr [][20]byte
+	bulkHex  []string
+	bulkOnce sync.Once
+)
+
+func bulk() ([][20]byte, []string) {
+	bulkOnce.Do(func() {
+		for i := 0; i < maxBulk; i++ {
+			var a [20]byte
+			copy(a[:], secp.Keccak256([]byte(fmt.Sprintf("verif-c17-bulk-%d", i)))[12:])
+			bulkAddr = append(bulkAddr, a)
+			bulkHex = append(bulkHex, hex.EncodeToString(a[:]))
+		}
+	})
+	return bulkAddr, bulkHex
+}
+
 // ---------------------------------------------------------------------------------
 // directory layouts / configurations
 
@@ -179,6 +202,42 @@ func (l layout) fileName(k poolKey, alias bool) string {
 		return "0x" + k.hex40 + ext
 	}
 	return k.hex40 + ext
+}
+
+// bulkFileName: every seventh cheap file carries the optional 0x prefix.
+func (l layout) bulkFileName(i int) string {
+	_, hx := bulk()
+	ext := l.Ext
+	if l.Regex != "" {
+		ext = ".key.json"
+	}
+	if i%7 == 3 {
+		return "0x" + hx[i] + ext
+	}
+	return hx[i] + ext
+}
+
+// junkName: directory entries that must NOT be listed, spread over the name order: other
+// extensions, near-miss addresses under the matching extension, sub-directories (also under a
+// matching name: only files count).
+func (l layout) junkName(i int) (name string, dir bool) {
+	ext := l.Ext
+	if l.Regex != "" {
+		ext = ".key.json"
+	}
+	pre := fmt.Sprintf("%02x", (i*37)%256)
+	switch i % 5 {
+	case 0:
+		return fmt.Sprintf("%s-note-%d.txt", pre, i), false
+	case 1:
+		return fmt.Sprintf("%s%037d%s", pre, i, ext), false // 39 hex digits: not an address
+	case 2:
+		return fmt.Sprintf("%sdir-%d", pre, i), true
+	case 3:
+		return fmt.Sprintf("%s%038d%s.bak", pre, i, ext), false // an address, but another extension
+	default:
+		return fmt.Sprintf("%s%038x%s", pre, i+1, ext), true // a DIRECTORY under a matching name
+	}
 }
 
 type caseDirs struct{ root, wallet, stage, keys, pwd, defPwd string }
@@ -226,11 +285,26 @@ func (l layout) primaryContent(d caseDirs, idx int, k poolKey) []byte {
 // "0x…" for the same address), refresh, accounts, listen (A = channel capacity),
 // sign / signtyped / walletfile (A = key index), close.  Y = runtime.Gosched()
 // calls before the op.
+//
+// bulk: N cheap matching files (bulk indices A..A+N-1; empty files, only their names matter) appear one
+// after the other, M = 0 each moved in from the staging directory, 1 each created in place, 4 each
+// hard-linked to one staged file; R > 0: Refresh after every R files (and after the last one).
+// Every file has its own sequence number.
+//
+// storm: a registration storm.  The goroutine calls AddListener in a tight loop (Y yields between two
+// registrations) until every goroutine that has no storm op has finished, at most A times; every channel
+// is buffered for all addresses that can still appear and is read only at the end.
+//
+// G (listen; always for storm): call GetAccounts right after AddListener returned and remember the
+// answer - an address missing from it appeared after the registration, whenever its file was created.
 type Op struct {
 	K string `json:"k"`
 	A int    `json:"a,omitempty"`
 	M int    `json:"m,omitempty"`
 	Y int    `json:"y,omitempty"`
+	N int    `json:"n,omitempty"`
+	R int    `json:"r,omitempty"`
+	G bool   `json:"g,omitempty"`
 }
 
 type ProgramCase struct {
@@ -238,6 +312,8 @@ type ProgramCase struct {
 	Listener         bool   `json:"listener"`
 	Layout           string `json:"layout"`
 	Pre              int    `json:"pre"`                // key files 0..Pre-1 exist before Initialize
+	BulkPre          int    `json:"bulk_pre,omitempty"` // cheap matching files (bulk indices 0..BulkPre-1) exist before Initialize
+	Junk             int    `json:"junk,omitempty"`     // directory entries that match nothing exist before Initialize
 	InitialListeners int    `json:"initial_listeners"`  // passed to NewFilesystemWallet
 	Sentinel         int    `json:"sentinel,omitempty"` // how the last file (discovered through events alone) appears: see createFile
 	Threads          [][]Op `json:"threads"`
@@ -246,17 +322,19 @@ type ProgramCase struct {
 // ---- history (saved, not judged by anything but the oracle below)
 
 type opRecord struct {
-	K   string `json:"k"`
-	A   int    `json:"a,omitempty"`
-	Seq int64  `json:"seq,omitempty"` // create/alias: counter value taken before the file appears; listen: after AddListener returned
-	N   int    `json:"n,omitempty"`   // accounts: length
-	Err string `json:"err,omitempty"`
-	L   int    `json:"listener,omitempty"`
+	K    string  `json:"k"`
+	A    int     `json:"a,omitempty"`
+	Seq  int64   `json:"seq,omitempty"`  // create/alias: counter value taken before the file appears; listen: after AddListener returned
+	Seqs []int64 `json:"seqs,omitempty"` // bulk: one per file
+	N    int     `json:"n,omitempty"`    // accounts: length; storm: registrations made
+	Err  string  `json:"err,omitempty"`
+	L    int     `json:"listener,omitempty"`
 }
 
 type listenerRecord struct {
 	ID       int      `json:"id"`
 	SeqAfter int64    `json:"registered_seq"` // 0 = before Initialize
+	Listed   *int     `json:"listed_after_registration,omitempty"`
 	Got      []string `json:"received"`
 }
 
@@ -427,7 +505,9 @@ type listener struct {
 	id       int
 	ch       chan ethtypes.Address0xHex
 	seqAfter int64
-	got      []string // written by the drainer only; read after the drainer has stopped
+	looked   bool                     // GetAccounts was called right after AddListener returned ...
+	seen     []*ethtypes.Address0xHex // ... and answered this
+	got      []string                 // written by the drainer only; read after the drainer has stopped
 	stop     chan struct{}
 	done     chan struct{}
 }
@@ -457,10 +537,20 @@ func newListener(id, capacity int) *listener {
 
 // ---- the judge
 
+// stormReg is one registration of a storm: no goroutine behind it, the channel holds everything.
+type stormReg struct {
+	ch       chan ethtypes.Address0xHex
+	seqAfter int64
+	seen     []*ethtypes.Address0xHex // GetAccounts right after AddListener returned
+	got      []int32                  // address numbers received (filled when the channel is emptied)
+}
+
 type threadState struct {
 	recs      []opRecord
 	vs        []evid.Violation
 	listeners []*listener
+	storm     []*stormReg
+	bulkSeq   map[int]int64 // bulk index -> sequence number taken before the file appeared
 	progress  atomic.Int64
 	finished  atomic.Bool
 }
@@ -471,9 +561,10 @@ func judgeProgram(c ProgramCase) (vs []evid.Violation) {
 	if !ok {
 		return []evid.Violation{evid.V("harness", "unknown layout %q", c.Layout)}
 	}
-	if c.Pre < 0 || c.Pre > poolSize-2 || len(c.Threads) == 0 {
+	if c.Pre < 0 || c.Pre > poolSize-2 || len(c.Threads) == 0 || c.BulkPre < 0 || c.BulkPre > maxBulk || c.Junk < 0 || c.Junk > 4096 {
 		return []evid.Violation{evid.V("harness", "bad case shape")}
 	}
+	bAddr, bHex := bulk()
 	hist := &history{Program: c}
 	histName := fmt.Sprintf("history-%s.json", shard())
 	writeHistory(histName, hist) // before anything runs: a crash or a hang leaves the program behind
@@ -519,18 +610,62 @@ func judgeProgram(c ProgramCase) (vs []evid.Violation) {
 		used[i] = true
 	}
 	sentinel := poolSize - 1
-	for _, th := range c.Threads {
+	usedBulk := make([]bool, maxBulk)
+	for i := 0; i < c.BulkPre; i++ {
+		usedBulk[i] = true
+	}
+	lateAddrs := 1 // addresses that can appear after Initialize: the sentinel, every create op, every file of a bulk op
+	isStorm := make([]bool, len(c.Threads))
+	var nonStormLeft atomic.Int64
+	for ti, th := range c.Threads {
 		for _, op := range th {
-			if op.K == "create" {
+			switch op.K {
+			case "create":
 				if op.A < c.Pre || op.A >= sentinel || used[op.A] {
 					return []evid.Violation{evid.V("harness", "create op with key index %d: out of range or reused", op.A)}
 				}
 				used[op.A] = true
+				lateAddrs++
+			case "bulk":
+				if op.N < 1 || op.A < c.BulkPre || op.A+op.N > maxBulk {
+					return []evid.Violation{evid.V("harness", "bulk op %d..+%d: out of range", op.A, op.N)}
+				}
+				for i := op.A; i < op.A+op.N; i++ {
+					if usedBulk[i] {
+						return []evid.Violation{evid.V("harness", "bulk op %d..+%d: index %d reused", op.A, op.N, i)}
+					}
+					usedBulk[i] = true
+				}
+				lateAddrs += op.N
+			case "storm":
+				if op.A < 1 || op.A > maxStormRegs {
+					return []evid.Violation{evid.V("harness", "storm op with %d registrations: out of range", op.A)}
+				}
+				isStorm[ti] = true
 			}
+		}
+		if !isStorm[ti] {
+			nonStormLeft.Add(1)
 		}
 	}
 	used[sentinel] = true
+	// every address the program can ever list gets a number (the storm oracle works on numbers)
+	addrNum := map[[20]byte]int32{}
+	var numHex []string
 	planned := map[string]bool{}
+	for i := 0; i < poolSize; i++ {
+		if used[i] {
+			addrNum[ks[i].addr] = int32(len(numHex))
+			numHex = append(numHex, ks[i].hex40)
+		}
+	}
+	for i, u := range usedBulk {
+		if u {
+			addrNum[bAddr[i]] = int32(len(numHex))
+			numHex = append(numHex, bHex[i])
+			planned[bHex[i]] = true
+		}
+	}
 	for i := range used {
 		planned[ks[i].hex40] = true
 		if lay.Meta != "" {
@@ -635,9 +770,50 @@ func judgeProgram(c ProgramCase) (vs []evid.Violation) {
 			return os.Rename(tmp, final)
 		}
 	}
+	// createBulk makes the (empty) file of bulk address idx appear under its matching name:
+	// 0 created in the staging directory and moved in, 1 created in place, 4 hard-linked to one staged file.
+	var bulkSrcOnce sync.Once
+	bulkSrc := filepath.Join(d.stage, "bulk-source")
+	createBulk := func(idx, mode int) error {
+		final := filepath.Join(d.wallet, lay.bulkFileName(idx))
+		switch mode {
+		case 1:
+			return os.WriteFile(final, nil, 0o600)
+		case 4:
+			bulkSrcOnce.Do(func() { _ = os.WriteFile(bulkSrc, nil, 0o600) })
+			return os.Link(bulkSrc, final)
+		default:
+			tmp := filepath.Join(d.stage, fmt.Sprintf("b%d", stageN.Add(1)))
+			if err := os.WriteFile(tmp, nil, 0o600); err != nil {
+				return err
+			}
+			return os.Rename(tmp, final)
+		}
+	}
 	for i := 0; i < c.Pre; i++ {
 		if err := createFile(i, false, 0); err != nil {
 			return []evid.Violation{evid.V("harness", "pre-create: %v", err)}
+		}
+	}
+	for i := 0; i < c.BulkPre; i++ {
+		mode := 4 // cheapest; every ninth is a file of its own
+		if i%9 == 4 {
+			mode = 1
+		}
+		if err := createBulk(i, mode); err != nil {
+			return []evid.Violation{evid.V("harness", "pre-create (bulk): %v", err)}
+		}
+	}
+	for i := 0; i < c.Junk; i++ {
+		name, dir := lay.junkName(i)
+		var err error
+		if dir {
+			err = os.Mkdir(filepath.Join(d.wallet, name), 0o755)
+		} else {
+			err = os.WriteFile(filepath.Join(d.wallet, name), []byte("not a key\n"), 0o600)
+		}
+		if err != nil {
+			return []evid.Violation{evid.V("harness", "pre-create (junk): %v", err)}
 		}
 	}
 
@@ -680,16 +856,43 @@ func judgeProgram(c ProgramCase) (vs []evid.Violation) {
 			<-l.done
 		}
 	}
-	w, err := fswallet.NewFilesystemWallet(ctx, conf, initial...)
-	if err != nil {
+	// The number of inotify instances is limited per USER (fs.inotify.max_user_instances, 128 here), not per
+	// process: other jobs on the machine can use them up, then the wallet's listener cannot start.  That is not
+	// the property's business: wait for an instance (a fresh wallet each time), and give the case up as
+	// infrastructure if none turns up.  (A wallet that leaked its own descriptors is caught where it leaks:
+	// close-stops-listener.)  Close is not to be trusted after a failed start: it is given two seconds.
+	var w fswallet.Wallet
+	for attempt, waited := 0, time.Duration(0); ; attempt++ {
+		var err error
+		w, err = fswallet.NewFilesystemWallet(ctx, conf, initial...)
+		if err != nil {
+			stopListeners()
+			return []evid.Violation{evid.V("harness", "NewFilesystemWallet: %v", err)}
+		}
+		if err = w.Initialize(ctx); err == nil {
+			if attempt > 0 {
+				note("dyn:waited-for-an-inotify-instance")
+			}
+			break
+		}
+		closed := make(chan struct{})
+		go func(w fswallet.Wallet) { defer close(closed); _ = w.Close() }(w)
+		select {
+		case <-closed:
+		case <-time.After(2 * time.Second):
+		}
+		hist.Notes = append(hist.Notes, "Initialize failed: "+firstLine(err.Error()))
+		exhausted := c.Listener && (strings.Contains(err.Error(), "too many open files") || strings.Contains(err.Error(), "no space left on device"))
+		if own := inotifyFDs(); exhausted && own <= baseInotify+2 && own < 16 && waited < 3*time.Minute {
+			pause := 250 * time.Millisecond << uint(min(attempt, 4))
+			time.Sleep(pause)
+			waited += pause
+			continue
+		} else if exhausted && own <= baseInotify+2 && own < 16 {
+			stopListeners()
+			return []evid.Violation{evid.Infra("no inotify instance became available within %s (per-user limit, used up by other processes): %v", waited, err)}
+		}
 		stopListeners()
-		return []evid.Violation{evid.V("harness", "NewFilesystemWallet: %v", err)}
-	}
-	if err := w.Initialize(ctx); err != nil {
-		stopListeners()
-		_ = w.Close()
-		// inotify instance limits etc. are infrastructure, not the property
-		hist.Notes = append(hist.Notes, "Initialize failed: "+err.Error())
 		return []evid.Violation{evid.V("harness", "Initialize: %v", err)}
 	}
 
@@ -708,6 +911,9 @@ func judgeProgram(c ProgramCase) (vs []evid.Violation) {
 		go func(ti int, ops []Op, ts *threadState) {
 			defer wg.Done()
 			defer ts.finished.Store(true)
+			if !isStorm[ti] {
+				defer nonStormLeft.Add(-1)
+			}
 			defer func() {
 				if p := recover(); p != nil {
 					ts.vs = append(ts.vs, evid.V("no-panic", "a wallet operation panicked\ngoroutine %d: %v\n%s", ti, p, debugStack()))
@@ -719,6 +925,7 @@ func judgeProgram(c ProgramCase) (vs []evid.Violation) {
 			for i := 0; i < c.Pre; i++ { // discovered by Initialize
 				sure[i] = true
 			}
+			var mineBulk, sureBulk []int // the same for cheap files (those existing before Initialize are checked separately)
 			for _, op := range ops {
 				for y := 0; y < op.Y; y++ {
 					runtime.Gosched()
@@ -741,6 +948,48 @@ func judgeProgram(c ProgramCase) (vs []evid.Violation) {
 					if err := createFile(op.A, true, op.M); err != nil {
 						ts.vs = append(ts.vs, evid.V("harness", "create alias: %v", err))
 					}
+				case "bulk":
+					if ts.bulkSeq == nil {
+						ts.bulkSeq = map[int]int64{}
+					}
+					rec.N = op.N
+					for i := op.A; i < op.A+op.N; i++ {
+						sq := seq.Add(1)
+						if err := createBulk(i, op.M); err != nil {
+							ts.vs = append(ts.vs, evid.V("harness", "create cheap file: %v", err))
+							break
+						}
+						ts.bulkSeq[i] = sq
+						rec.Seqs = append(rec.Seqs, sq)
+						mineBulk = append(mineBulk, i)
+						if op.R > 0 && ((i-op.A+1)%op.R == 0 || i == op.A+op.N-1) {
+							if err := w.Refresh(ctx); err != nil {
+								rec.Err = err.Error()
+								ts.vs = append(ts.vs, evid.V("refresh-ok", "Refresh of an existing directory failed: %v", err))
+								break
+							}
+							for k := range mine {
+								sure[k] = true
+							}
+							sureBulk, mineBulk = append(sureBulk, mineBulk...), mineBulk[:0]
+						}
+					}
+				case "storm":
+					yields := op.Y
+					for n := 0; n < op.A; n++ {
+						if n&15 == 15 && nonStormLeft.Load() == 0 {
+							break
+						}
+						r := &stormReg{ch: make(chan ethtypes.Address0xHex, lateAddrs+2)}
+						w.AddListener(r.ch)
+						r.seqAfter = seq.Add(1)
+						r.seen, _ = w.GetAccounts(ctx)
+						ts.storm = append(ts.storm, r)
+						for y := 0; y < yields; y++ {
+							runtime.Gosched()
+						}
+					}
+					rec.N = len(ts.storm)
 				case "refresh":
 					if err := w.Refresh(ctx); err != nil {
 						rec.Err = err.Error()
@@ -749,6 +998,7 @@ func judgeProgram(c ProgramCase) (vs []evid.Violation) {
 						for k := range mine {
 							sure[k] = true
 						}
+						sureBulk, mineBulk = append(sureBulk, mineBulk...), mineBulk[:0]
 					}
 				case "accounts":
 					accs, err := w.GetAccounts(ctx)
@@ -776,6 +1026,21 @@ func judgeProgram(c ProgramCase) (vs []evid.Violation) {
 							ts.vs = append(ts.vs, evid.V("accounts-converge", "GetAccounts misses an address although its file was complete before a Refresh that returned earlier in the same goroutine\n%s", ks[k].hex40))
 						}
 					}
+					missing := 0
+					for k := 0; k < c.BulkPre; k++ {
+						if !seen[bHex[k]] {
+							if missing++; missing == 1 {
+								ts.vs = append(ts.vs, evid.V("accounts-converge", "GetAccounts misses an address although its file existed before Initialize\n%s (file %s; %d matching files and %d other entries existed before Initialize; %d listed now)", bHex[k], lay.bulkFileName(k), c.Pre+c.BulkPre, c.Junk, len(accs)))
+							}
+						}
+					}
+					for _, k := range sureBulk {
+						if !seen[bHex[k]] {
+							if missing++; missing == 1 {
+								ts.vs = append(ts.vs, evid.V("accounts-converge", "GetAccounts misses an address although its file existed before a Refresh that returned earlier in the same goroutine\n%s (file %s; %d listed now)", bHex[k], lay.bulkFileName(k), len(accs)))
+							}
+						}
+					}
 				case "listen":
 					capacity := op.A
 					if capacity < 0 {
@@ -784,6 +1049,10 @@ func judgeProgram(c ProgramCase) (vs []evid.Violation) {
 					l := newListener(int(nextListenerID.Add(1))-1, capacity)
 					w.AddListener(l.ch)
 					l.seqAfter = seq.Add(1)
+					if op.G {
+						l.looked = true
+						l.seen, _ = w.GetAccounts(ctx)
+					}
 					rec.Seq = l.seqAfter
 					rec.L = l.id
 					ts.listeners = append(ts.listeners, l)
@@ -884,10 +1153,29 @@ func judgeProgram(c ProgramCase) (vs []evid.Violation) {
 		// the blocked goroutines still own their records: do not touch them
 		return append(vs, evid.V("liveness", "no operation completed for %s with the process otherwise idle\nblocked: %s; goroutine dump: %s", liveness, strings.Join(blocked, ", "), p))
 	}
+	var regs []*stormReg
 	for _, ts := range threads {
 		vs = append(vs, ts.vs...)
 		hist.Threads = append(hist.Threads, ts.recs)
 		all = append(all, ts.listeners...)
+		regs = append(regs, ts.storm...)
+	}
+	// emptyStorm moves what the storm's channels hold into the registrations' records (the harness is the only reader)
+	strayStorm := 0
+	emptyStorm := func() {
+		for _, r := range regs {
+			for len(r.ch) > 0 {
+				a := <-r.ch
+				n, ok := addrNum[[20]byte(a)]
+				if !ok {
+					n = -1
+					if strayStorm++; strayStorm == 1 {
+						vs = append(vs, evid.V("notify-known-address", "a listener received an address for which no file was ever created\n%s", hex.EncodeToString(a[:])))
+					}
+				}
+				r.got = append(r.got, n)
+			}
+		}
 	}
 
 	// ---- quiescence
@@ -922,6 +1210,10 @@ func judgeProgram(c ProgramCase) (vs []evid.Violation) {
 		created[ks[i].hex40] = true
 		firstSeq[ks[i].hex40] = 0
 	}
+	for i := 0; i < c.BulkPre; i++ {
+		created[bHex[i]] = true
+		firstSeq[bHex[i]] = 0
+	}
 	for _, ts := range threads {
 		for _, r := range ts.recs {
 			if (r.K == "create" || r.K == "alias") && r.Seq > 0 {
@@ -931,6 +1223,10 @@ func judgeProgram(c ProgramCase) (vs []evid.Violation) {
 					firstSeq[h] = r.Seq
 				}
 			}
+		}
+		for i, sq := range ts.bulkSeq {
+			created[bHex[i]] = true
+			firstSeq[bHex[i]] = sq
 		}
 	}
 	eventsLive := c.Listener && !closeCalled.Load()
@@ -975,12 +1271,13 @@ func judgeProgram(c ProgramCase) (vs []evid.Violation) {
 		return vs
 	}
 	// every notification goroutine the wallet started has to finish (the listener channels are drained)
-	if !waitFor(func() bool { return goroutinesIn("fswallet.(*fsWallet).notifyNewFiles") <= baseDispatch }) {
+	if !waitFor(func() bool { emptyStorm(); return goroutinesIn("fswallet.(*fsWallet).notifyNewFiles") <= baseDispatch }) {
 		p := dumpGoroutines("stuck")
 		vs = append(vs, evid.V("liveness", "notification dispatch still running %s after the last operation although every listener channel is being drained\ngoroutine dump: %s", liveness, p))
 		return vs
 	}
 	stopListeners()
+	emptyStorm()
 
 	// ---- the oracle over the history
 	m, final := accountSet()
@@ -999,12 +1296,23 @@ func judgeProgram(c ProgramCase) (vs []evid.Violation) {
 		}
 	}
 	sort.Slice(all, func(i, j int) bool { return all[i].id < all[j].id })
-	mustPairs, latePairs := 0, 0
+	mustPairs, latePairs, windowPairs := 0, 0, 0
 	for _, l := range all {
 		hist.Listeners = append(hist.Listeners, listenerRecord{ID: l.id, SeqAfter: l.seqAfter, Got: l.got})
 		cnt := map[string]int{}
 		for _, h := range l.got {
 			cnt[h]++
+		}
+		var listedThen map[string]bool
+		if l.looked {
+			listedThen = map[string]bool{}
+			for _, a := range l.seen {
+				if a != nil {
+					listedThen[hex.EncodeToString(a[:])] = true
+				}
+			}
+			n := len(l.seen)
+			hist.Listeners[len(hist.Listeners)-1].Listed = &n
 		}
 		for h, n := range cnt {
 			if n > 1 {
@@ -1023,7 +1331,28 @@ func judgeProgram(c ProgramCase) (vs []evid.Violation) {
 				if cnt[h] != 1 {
 					vs = append(vs, evid.V("notify-exactly-once", "a listener registered before the first file for an address was created did not receive that address exactly once\nlistener %d (registered at seq %d), address %s (file created at seq %d): received %d times", l.id, l.seqAfter, h, firstSeq[h], cnt[h]))
 				}
+			} else if l.looked && !listedThen[h] && m[h] > 0 {
+				// the file may have been on its way already, but the wallet did not list the address yet
+				// when AddListener had returned: it appeared after the registration
+				windowPairs++
+				if cnt[h] != 1 {
+					vs = append(vs, evid.V("notify-exactly-once", "a listener that was registered while the account list did not contain an address yet did not receive that address exactly once\nlistener %d (registered at seq %d; GetAccounts called after AddListener returned listed %d addresses, not this one), address %s (file created at seq %d, listed now): received %d times", l.id, l.seqAfter, len(l.seen), h, firstSeq[h], cnt[h]))
+				}
 			}
+		}
+	}
+	vs = append(vs, judgeStorm(regs, numHex, addrNum, created, firstSeq, m, w, hist, &mustPairs, &windowPairs)...)
+	if windowPairs > 0 {
+		note("dyn:listener-registered-between-file-creation-and-listing(exactly-once-checked)")
+	}
+	if len(regs) > 0 {
+		switch {
+		case len(regs) >= 3000:
+			note("dyn:storm-registrations>=3000")
+		case len(regs) >= 500:
+			note("dyn:storm-registrations=500..2999")
+		default:
+			note("dyn:storm-registrations<500")
 		}
 	}
 	if mustPairs > 0 {
@@ -1036,6 +1365,156 @@ func judgeProgram(c ProgramCase) (vs []evid.Violation) {
 		vs = vs[:8]
 	}
 	return vs
+}
+
+// judgeStorm applies the per-listener clauses to the registrations of a storm.  Two witnesses say that a
+// registration came before an address appeared: (a) AddListener had returned before the harness started to
+// create the file (sequence counter), (b) the account list fetched after AddListener had returned does not
+// contain the address, and the address is listed in the end (the list only grows).
+func judgeStorm(regs []*stormReg, numHex []string, addrNum map[[20]byte]int32, created map[string]bool, firstSeq map[string]int64,
+	finalCount map[string]int, w fswallet.Wallet, hist *history, mustPairs, windowPairs *int) (vs []evid.Violation) {
+	if len(regs) == 0 {
+		return nil
+	}
+	nA := len(numHex)
+	isCreated := make([]bool, nA)
+	first := make([]int64, nA)
+	listed := make([]bool, nA)
+	var createdNums []int32
+	for n, h := range numHex {
+		if created[h] {
+			isCreated[n] = true
+			first[n] = firstSeq[h]
+			listed[n] = finalCount[h] > 0
+			createdNums = append(createdNums, int32(n))
+		}
+	}
+	// The usual case: the answer a registration saw is a prefix of the final list (same objects). Then
+	// "was listed" is a comparison of positions; otherwise the set is built.
+	finalPtrs, _ := w.GetAccounts(context.Background())
+	pos := make([]int, nA)
+	for i := range pos {
+		pos[i] = -1
+	}
+	for i, p := range finalPtrs {
+		if p != nil {
+			if n, ok := addrNum[[20]byte(*p)]; ok && pos[n] < 0 {
+				pos[n] = i
+			}
+		}
+	}
+	cnt := make([]uint16, nA)
+	seenSet := make([]bool, nA)
+	missedA, missedB, twice, unknown := 0, 0, 0, 0
+	record := func(r *stormReg, i int) {
+		if len(hist.Listeners) < 24 {
+			var got []string
+			for _, n := range r.got {
+				if n >= 0 {
+					got = append(got, numHex[n])
+				} else {
+					got = append(got, "?")
+				}
+			}
+			k := len(r.seen)
+			hist.Listeners = append(hist.Listeners, listenerRecord{ID: -(i + 1), SeqAfter: r.seqAfter, Listed: &k, Got: got})
+		}
+	}
+	for i, r := range regs {
+		prefix := len(r.seen) <= len(finalPtrs)
+		if prefix {
+			for j, p := range r.seen {
+				if p != finalPtrs[j] {
+					prefix = false
+					break
+				}
+			}
+		}
+		if !prefix {
+			for _, p := range r.seen {
+				if p != nil {
+					if n, ok := addrNum[[20]byte(*p)]; ok {
+						seenSet[n] = true
+					}
+				}
+			}
+		}
+		bad := false
+		for _, n := range r.got {
+			if n < 0 {
+				continue // reported when the channel was emptied
+			}
+			cnt[n]++
+			if !isCreated[n] {
+				bad = true
+				if unknown++; unknown == 1 {
+					vs = append(vs, evid.V("notify-known-address", "a listener received an address for which no file exists\nstorm registration %d received %s", i, numHex[n]))
+				}
+			}
+		}
+		for _, n := range createdNums {
+			k := cnt[n]
+			if k > 1 {
+				bad = true
+				if twice++; twice == 1 {
+					vs = append(vs, evid.V("notify-never-twice", "a listener received an address more than once\nstorm registration %d (registered at seq %d) received %s %d times", i, r.seqAfter, numHex[n], k))
+				}
+			}
+			wasListed := seenSet[n]
+			if prefix {
+				wasListed = pos[n] >= 0 && pos[n] < len(r.seen)
+			}
+			switch {
+			case first[n] > 0 && r.seqAfter < first[n]:
+				*mustPairs++
+				if k != 1 {
+					bad = true
+					if missedA++; missedA == 1 {
+						vs = append(vs, evid.V("notify-exactly-once", "a listener registered before the first file for an address was created did not receive that address exactly once\nstorm registration %d (AddListener returned at seq %d), address %s (file created at seq %d): received %d times", i, r.seqAfter, numHex[n], first[n], k))
+					}
+				}
+			case !wasListed && listed[n]:
+				*windowPairs++
+				if k != 1 {
+					bad = true
+					if missedB++; missedB == 1 {
+						vs = append(vs, evid.V("notify-exactly-once", "a listener that was registered while the account list did not contain an address yet did not receive that address exactly once\nstorm registration %d (AddListener returned at seq %d; GetAccounts called after that listed %d addresses, not this one), address %s (file created at seq %d, listed now): received %d times", i, r.seqAfter, len(r.seen), numHex[n], first[n], k))
+					}
+				}
+			}
+		}
+		if bad {
+			record(r, i)
+		}
+		for _, n := range r.got {
+			if n >= 0 {
+				cnt[n] = 0
+			}
+		}
+		if !prefix {
+			for j := range seenSet {
+				seenSet[j] = false
+			}
+		}
+	}
+	hist.Notes = append(hist.Notes, fmt.Sprintf("storm: %d registrations; exactly-once violated for %d (registration, address) pairs by the sequence witness and %d by the account-list witness; %d double deliveries", len(regs), missedA, missedB, twice))
+	return vs
+}
+
+// bucket names the interval of the (ascending) bounds that n falls into: "<b0", "b0..b1-1", ..., ">=bk".
+func bucket(n int, bounds ...int) string {
+	for i, b := range bounds {
+		if n < b {
+			if i == 0 {
+				return fmt.Sprintf("<%d", b)
+			}
+			if bounds[i-1] == b-1 {
+				return strconv.Itoa(b - 1)
+			}
+			return fmt.Sprintf("%d..%d", bounds[i-1], b-1)
+		}
+	}
+	return fmt.Sprintf(">=%d", bounds[len(bounds)-1])
 }
 
 func debugStack() string {
@@ -1063,7 +1542,205 @@ var appearModes = []int{0, 0, 0, 1, 1, 1, 2, 2, 3, 4, 5, 6, 7, 7}
 var appearNames = map[int]string{0: "moved-in-from-staging-dir", 1: "written-in-place", 2: "temp-name-then-renamed", 3: "created-empty-then-filled", 4: "hard-linked-in",
 	5: "written-then-replaced", 6: "written-in-two-chunks", 7: "moved-up-from-sub-directory"}
 
+// directory sizes around and across plausible batch / buffer boundaries
+var bigSizes = []int{31, 32, 33, 49, 50, 51, 63, 64, 65, 99, 100, 101, 127, 128, 129, 199, 200, 201,
+	249, 250, 251, 255, 256, 257, 299, 300, 301, 499, 500, 501, 511, 512, 513, 749, 750, 751, 999, 1000, 1001, 1023, 1024, 1025}
+
+func genBigSize(rt *rapid.T, label string, max int) int {
+	n := 0
+	switch rapid.IntRange(0, 3).Draw(rt, label+".how") {
+	case 0:
+		n = rapid.IntRange(200, 1200).Draw(rt, label+".any")
+	default:
+		n = rapid.SampledFrom(bigSizes).Draw(rt, label+".edge")
+	}
+	if n > max {
+		n = max
+	}
+	return n
+}
+
+var bulkModes = []int{0, 1, 1, 4}
+
+// genProgram draws one of three shapes: "mixed" (a handful of ops per goroutine on real key files, as
+// before, now and then with a small batch of cheap files), "big-directory" (hundreds of matching files and
+// other entries before Initialize and/or added in batches while the program runs) and "registration-storm"
+// (goroutines registering listeners in tight loops while others let files trickle in and refresh).
 func genProgram(rt *rapid.T, thorough bool) ProgramCase {
+	// rapid favours the ends of an integer range (0..7 take two draws in five, 99 another 3 %): the rare shapes
+	// sit in the flat middle, where a value comes up about once in 200 draws
+	switch s := rapid.IntRange(0, 99).Draw(rt, "shape"); {
+	case s >= 40 && s < 48:
+		return genBigDirectory(rt, thorough)
+	case s >= 53 && s < 64:
+		return genStorm(rt, thorough)
+	}
+	return genMixed(rt, thorough)
+}
+
+func genBigDirectory(rt *rapid.T, thorough bool) ProgramCase {
+	c := ProgramCase{
+		Procs:            rapid.SampledFrom([]int{1, 2, 4, 16}).Draw(rt, "gomaxprocs"),
+		Listener:         rapid.IntRange(0, 1).Draw(rt, "listener") > 0,
+		Layout:           rapid.SampledFrom(layouts).Draw(rt, "layout").Name,
+		Pre:              rapid.SampledFrom([]int{0, 1, 2, 4}).Draw(rt, "pre"),
+		InitialListeners: rapid.IntRange(0, 2).Draw(rt, "initialListeners"),
+	}
+	if c.Listener {
+		c.Sentinel = rapid.SampledFrom(appearModes).Draw(rt, "sentinelAppears")
+	}
+	budget := 1100 // files per program (time)
+	if thorough {
+		budget = 2600
+	}
+	if rapid.IntRange(0, 4).Draw(rt, "bulkPre?") > 0 {
+		c.BulkPre = genBigSize(rt, "bulkPre", budget) - c.Pre // the boundary is about all matching files
+		if c.BulkPre < 0 {
+			c.BulkPre = 0
+		}
+	}
+	switch rapid.IntRange(0, 5).Draw(rt, "junk?") {
+	case 0:
+		c.Junk = rapid.IntRange(1, 6).Draw(rt, "junk")
+	case 1:
+		c.Junk = genBigSize(rt, "junk", 600)
+	case 2:
+		// the boundary is about all entries: fill up to an edge
+		if edge := rapid.SampledFrom(bigSizes).Draw(rt, "entries"); edge > c.Pre+c.BulkPre {
+			c.Junk = edge - c.Pre - c.BulkPre
+			if c.Junk > 600 {
+				c.Junk = 600
+			}
+		}
+	}
+	budget -= c.BulkPre
+	nThreads := rapid.SampledFrom([]int{2, 2, 3, 4, 6, 8}).Draw(rt, "threads")
+	nextKey, nextBulk := c.Pre, c.BulkPre
+	kinds := []string{"bulk", "bulk", "bulk", "create", "refresh", "refresh", "refresh", "accounts", "accounts", "listen", "listen", "sign", "walletfile", "close"}
+	for ti := 0; ti < nThreads; ti++ {
+		n := rapid.IntRange(1, 6).Draw(rt, fmt.Sprintf("t%d.n", ti))
+		var ops []Op
+		var mine []int
+		for oi := 0; oi < n; oi++ {
+			lbl := fmt.Sprintf("t%d.%d", ti, oi)
+			k := rapid.SampledFrom(kinds).Draw(rt, lbl+".k")
+			op := Op{K: k, Y: rapid.SampledFrom([]int{0, 0, 0, 1, 2}).Draw(rt, lbl+".y")}
+			switch k {
+			case "bulk":
+				size := 0
+				if rapid.IntRange(0, 2).Draw(rt, lbl+".small") == 0 {
+					size = rapid.IntRange(1, 40).Draw(rt, lbl+".files")
+				} else {
+					size = genBigSize(rt, lbl+".files", 700)
+				}
+				if size > budget {
+					size = budget
+				}
+				if size < 1 || nextBulk+size > maxBulk {
+					op.K = "refresh"
+					break
+				}
+				op.A, op.N = nextBulk, size
+				nextBulk += size
+				budget -= size
+				op.M = rapid.SampledFrom(bulkModes).Draw(rt, lbl+".appears")
+				op.R = rapid.SampledFrom([]int{0, 0, 0, size, 50, 100, 250}).Draw(rt, lbl+".refreshEvery")
+			case "create":
+				if nextKey >= poolSize-1 {
+					op.K = "refresh"
+					break
+				}
+				op.A = nextKey
+				nextKey++
+				mine = append(mine, op.A)
+				op.M = rapid.SampledFrom(appearModes).Draw(rt, lbl+".appears")
+			case "listen":
+				op.A = rapid.SampledFrom([]int{0, 1, 4, 64, 2048}).Draw(rt, lbl+".cap")
+				op.G = rapid.Bool().Draw(rt, lbl+".look")
+			case "sign", "walletfile":
+				switch {
+				case len(mine) > 0 && rapid.IntRange(0, 2).Draw(rt, lbl+".own") == 0:
+					op.A = rapid.SampledFrom(mine).Draw(rt, lbl+".key")
+				case nextKey > 0:
+					op.A = rapid.IntRange(0, nextKey-1).Draw(rt, lbl+".key")
+				}
+			case "close":
+				if rapid.IntRange(0, 3).Draw(rt, lbl+".really") != 0 {
+					op.K = "accounts"
+				}
+			}
+			ops = append(ops, op)
+		}
+		c.Threads = append(c.Threads, ops)
+	}
+	return c
+}
+
+func genStorm(rt *rapid.T, thorough bool) ProgramCase {
+	c := ProgramCase{
+		Procs:            rapid.SampledFrom([]int{2, 4, 4, 16, 16}).Draw(rt, "gomaxprocs"),
+		Listener:         rapid.Bool().Draw(rt, "listener"),
+		Layout:           rapid.SampledFrom(layouts).Draw(rt, "layout").Name,
+		Pre:              rapid.SampledFrom([]int{0, 1, 2}).Draw(rt, "pre"),
+		BulkPre:          rapid.SampledFrom([]int{0, 0, 3, 20}).Draw(rt, "bulkPre"),
+		InitialListeners: rapid.IntRange(0, 1).Draw(rt, "initialListeners"),
+	}
+	if c.Listener {
+		c.Sentinel = rapid.SampledFrom(appearModes).Draw(rt, "sentinelAppears")
+	}
+	if thorough && rapid.IntRange(0, 5).Draw(rt, "procsSweep") == 0 {
+		c.Procs = rapid.IntRange(1, 16).Draw(rt, "gomaxprocsAny")
+	}
+	registrars := rapid.IntRange(2, 8).Draw(rt, "registrars")
+	total := rapid.SampledFrom([]int{800, 2000, 4000, 6000}).Draw(rt, "registrations")
+	if thorough {
+		total = rapid.SampledFrom([]int{800, 2000, 5000, 8000, 12000}).Draw(rt, "registrationsT")
+	}
+	feeders := rapid.IntRange(1, 2).Draw(rt, "feeders")
+	nextKey, nextBulk := c.Pre, c.BulkPre
+	for f := 0; f < feeders; f++ {
+		lbl := fmt.Sprintf("f%d", f)
+		var ops []Op
+		batches := rapid.IntRange(1, 3).Draw(rt, lbl+".batches")
+		for b := 0; b < batches; b++ {
+			bl := fmt.Sprintf("%s.%d", lbl, b)
+			size := rapid.IntRange(8, 40).Draw(rt, bl+".files")
+			op := Op{K: "bulk", A: nextBulk, N: size, M: rapid.SampledFrom(bulkModes).Draw(rt, bl+".appears")}
+			nextBulk += size
+			// the file trickle is a trickle of discovery passes: a Refresh per file (or per few files), or the events alone
+			if c.Listener {
+				op.R = rapid.SampledFrom([]int{0, 0, 1, 1, 3}).Draw(rt, bl+".refreshEvery")
+			} else {
+				op.R = rapid.SampledFrom([]int{1, 1, 1, 2, 5}).Draw(rt, bl+".refreshEvery")
+			}
+			ops = append(ops, op)
+			switch rapid.IntRange(0, 5).Draw(rt, bl+".then") {
+			case 0:
+				ops = append(ops, Op{K: "accounts"})
+			case 1:
+				if nextKey < poolSize-1 {
+					ops = append(ops, Op{K: "create", A: nextKey, M: rapid.SampledFrom(appearModes).Draw(rt, bl+".appears2")}, Op{K: "refresh"}, Op{K: "sign", A: nextKey})
+					nextKey++
+				}
+			case 2:
+				ops = append(ops, Op{K: "listen", A: 256, G: true})
+			}
+		}
+		c.Threads = append(c.Threads, ops)
+	}
+	for r := 0; r < registrars; r++ {
+		lbl := fmt.Sprintf("r%d", r)
+		var ops []Op
+		if rapid.IntRange(0, 3).Draw(rt, lbl+".first") == 0 {
+			ops = append(ops, Op{K: "accounts"})
+		}
+		ops = append(ops, Op{K: "storm", A: total / registrars, Y: rapid.SampledFrom([]int{0, 0, 1, 1, 2}).Draw(rt, lbl+".y")})
+		c.Threads = append(c.Threads, ops)
+	}
+	return c
+}
+
+func genMixed(rt *rapid.T, thorough bool) ProgramCase {
 	c := ProgramCase{
 		Procs:            rapid.SampledFrom([]int{1, 2, 4, 16}).Draw(rt, "gomaxprocs"),
 		Listener:         rapid.IntRange(0, 3).Draw(rt, "listener") > 0,
@@ -1083,8 +1760,10 @@ func genProgram(rt *rapid.T, thorough bool) ProgramCase {
 		maxOps = 5
 	}
 	nextKey := c.Pre
+	nextBulk := 0
 	const maxCreates = 40
-	kinds := []string{"create", "create", "create", "alias", "refresh", "refresh", "accounts", "accounts", "listen", "listen", "listen", "sign", "sign", "sign", "signtyped", "walletfile", "close"}
+	kinds := []string{"create", "create", "create", "alias", "refresh", "refresh", "accounts", "accounts", "listen", "listen", "listen", "sign", "sign", "sign", "signtyped", "walletfile", "close",
+		"create", "create", "create", "alias", "refresh", "refresh", "accounts", "bulk", "accounts", "listen", "listen", "listen", "sign", "sign", "sign", "signtyped", "walletfile", "close"}
 	for ti := 0; ti < nThreads; ti++ {
 		n := rapid.IntRange(1, maxOps).Draw(rt, fmt.Sprintf("t%d.n", ti))
 		var ops []Op
@@ -1110,8 +1789,15 @@ func genProgram(rt *rapid.T, thorough bool) ProgramCase {
 				}
 				op.A = rapid.SampledFrom(mine).Draw(rt, lbl+".of")
 				op.M = rapid.SampledFrom(appearModes).Draw(rt, lbl+".appears")
+			case "bulk":
+				op.N = rapid.IntRange(1, 16).Draw(rt, lbl+".files")
+				op.A = nextBulk
+				nextBulk += op.N
+				op.M = rapid.SampledFrom(bulkModes).Draw(rt, lbl+".appears")
+				op.R = rapid.SampledFrom([]int{0, 0, 1, 4}).Draw(rt, lbl+".refreshEvery")
 			case "listen":
 				op.A = rapid.SampledFrom([]int{0, 1, 1, 4, 64}).Draw(rt, lbl+".cap")
+				op.G = rapid.Bool().Draw(rt, lbl+".look")
 			case "sign", "signtyped", "walletfile":
 				// aim at keys that exist: pre-existing ones, own ones, or any planned so far
 				switch {
@@ -1152,6 +1838,7 @@ func classify(c ProgramCase) (nontrivial bool, classes []string) {
 	}
 	lay, _ := layoutByName(c.Layout)
 	listenAfterCreate, hasClose, hasAlias := false, false, false
+	storms, stormRegs, bulkFiles, biggestBulk, looks := 0, 0, 0, 0, 0
 	discoverers := map[int]bool{}
 	signers := map[int]bool{}
 	listenThreads := map[int]bool{}
@@ -1164,12 +1851,25 @@ func classify(c ProgramCase) (nontrivial bool, classes []string) {
 				createdHere = true
 				discoverers[ti] = true
 				appear[op.M] = true
+			case "bulk":
+				createdHere = true
+				discoverers[ti] = true
+				bulkFiles += op.N
+				if op.N > biggestBulk {
+					biggestBulk = op.N
+				}
 			case "refresh":
 				discoverers[ti] = true
 			case "alias":
 				hasAlias = true
-			case "listen":
-				if c.Pre > 0 || createdHere {
+			case "listen", "storm":
+				if op.K == "storm" {
+					storms++
+					stormRegs += op.A
+				} else if op.G {
+					looks++
+				}
+				if c.Pre > 0 || c.BulkPre > 0 || createdHere {
 					listenAfterCreate = true
 					listenThreads[ti] = true
 				}
@@ -1201,8 +1901,34 @@ func classify(c ProgramCase) (nontrivial bool, classes []string) {
 	if hasAlias {
 		classes = append(classes, "two-files-one-address")
 	}
-	if c.Pre > 0 {
+	if c.Pre > 0 || c.BulkPre > 0 {
 		classes = append(classes, "files-before-Initialize")
+	}
+	switch {
+	case storms > 0:
+		classes = append(classes, "shape=registration-storm")
+	case c.BulkPre+c.Junk+bulkFiles >= 200:
+		classes = append(classes, "shape=big-directory")
+	default:
+		classes = append(classes, "shape=mixed")
+	}
+	if storms > 0 {
+		classes = append(classes, fmt.Sprintf("storm-goroutines=%s", bucket(storms, 2, 4, 8)), fmt.Sprintf("storm-registrations(max)=%s", bucket(stormRegs, 1000, 3000, 6000)))
+	}
+	if looks > 0 {
+		classes = append(classes, "listen-then-GetAccounts")
+	}
+	if e := c.Pre + c.BulkPre + c.Junk; e > 0 {
+		classes = append(classes, "entries-before-Initialize="+bucket(e, 5, 250, 251, 500, 1000))
+		if e > 250 && e%250 != 0 {
+			classes = append(classes, "entries-before-Initialize>250,not-a-multiple-of-250")
+		}
+	}
+	if c.Junk > 0 {
+		classes = append(classes, "non-matching-entries="+bucket(c.Junk, 10, 250))
+	}
+	if bulkFiles > 0 {
+		classes = append(classes, "cheap-files-added="+bucket(bulkFiles, 25, 250, 251, 1000), "biggest-batch="+bucket(biggestBulk, 25, 250, 251, 500))
 	}
 	for mde := 0; mde <= 7; mde++ {
 		if appear[mde] {
@@ -1241,6 +1967,8 @@ func TestCheck(t *testing.T) {
 	rec.Assume("schedules: the Go scheduler and the kernel choose the interleaving; explored = generated programs x GOMAXPROCS {1,2,4,16} (1..16 in the thorough tier) x yields, judged by the race detector (happens-before based, not timing based) and an order-insensitive history oracle")
 	rec.Assume("race reports count only when a frame lies in pkg/fswallet; liveness is a 30 s bound on an otherwise idle process; Sign results are asserted only for keys whose complete file the same goroutine saw a Refresh return for")
 	rec.Assume("a key file reaches its matching name in one of eight generated ways (written in place, in two chunks, created empty then filled, moved in from a staging directory, renamed from a temporary name inside the wallet directory, moved up from a sub-directory, hard-linked in, written then replaced by a rename); the convergence clauses do not depend on which - the sentinel file that closes the event-only phase appears in a generated way as well")
+	rec.Assume("registered before an address first appears: witnessed either by a harness sequence counter (AddListener returned before the harness began to create the first file for the address) or by the wallet's own account list (a GetAccounts issued after AddListener returned does not contain the address and it is listed in the end; the list never shrinks - no program deletes files); registration storms hold every channel with room for all addresses that can still appear and read them at the end")
+	rec.Assume("big directories are made of empty files named after fixed addresses (only names matter for listing) plus entries that match nothing; a few real key files remain for signing")
 	rec.Assume("trusted base: Go race detector, inotify, ref/secp + harness keystore writer (anchored against keystorev3.ReadWalletFile at start-up)")
 	k := evid.NewKind(rec, "program", judgeProgram)
 	note = rec.Class
